@@ -28,7 +28,8 @@ Proof. exact decode_encode. Qed.
    one or two symbols) and returns what they denote; on everything else it returns Err — it never panics.
    Scope note (canonical vs lenient): `denote` drops the 2 or 4 bits left over after the last complete octet
    whatever their value, i.e. the decoder is LENIENT about non-zero trailing bits ("AB==" decodes like "AA==").
-   RFC 4648 §3.5 allows either choice ("MAY reject"); CPython's base64 does the same. *)
+   RFC 4648 §3.5 allows either choice ("MAY reject"); CPython's base64 does the same. Theorem
+   C18_b64_decode_canonical below says exactly which accepted texts are the encoder's own output. *)
 Theorem C18_b64_decode_iff :
   forall (s b : list N), decode s = Ok b <-> WellFormed s /\ b = denote s.
 Proof. exact decode_iff_wf. Qed.
@@ -40,6 +41,13 @@ Proof. exact decode_rejects. Qed.
 Theorem C18_b64_decode_never_panics :
   forall s : list N, decode s = Ok (denote s) \/ decode s = Err 0.
 Proof. exact decode_total. Qed.
+
+(* Canonical vs lenient, made exact: among the texts the decoder accepts, those whose left-over bits are zero
+   (Canonical, RFC 4648 §3.5) are precisely the encoder's outputs — re-encoding the decoded bytes gives the text back
+   iff the text is canonical. So the only slack in "decode inverts encode" is the 2 or 4 ignored trailing bits. *)
+Theorem C18_b64_decode_canonical :
+  forall (s b : list N), decode s = Ok b -> (encode b = Ok s <-> Canonical s).
+Proof. exact decode_canonical. Qed.
 
 (* Table 1 is what the code's ALPHABET constant and the decoder's `match` arms implement. *)
 Theorem C18_b64_alphabet_is_table1 :
@@ -83,6 +91,7 @@ Print Assumptions C18_b64_decode_encode.
 Print Assumptions C18_b64_decode_iff.
 Print Assumptions C18_b64_decode_rejects_malformed.
 Print Assumptions C18_b64_decode_never_panics.
+Print Assumptions C18_b64_decode_canonical.
 Print Assumptions C18_b64_alphabet_is_table1.
 Print Assumptions C18_b64_old_refuted.
 Print Assumptions C18_b64_vectors.
